@@ -221,6 +221,8 @@ def corr(ctx, name, go_cmd, go_args, driver_args, timeout=3600):
         if not ln:
             continue
         if '\t=>\t' not in ln:
+            if ln.startswith('ignoring uninitialized slice'):
+                continue   # printed to stdout by gnark's schema walker for nil slices
             raise RuntimeError(f'bad harness line: {ln[:200]}')
         l, r = ln.split('\t=>\t', 1)
         lines.append(l); expect.append(r)
